@@ -180,47 +180,65 @@ def enc_upd(props: Optional[Dict[str, Any]]):
 
 
 def enc_op(op):
+    """Model form of an op (the instance index is not part of it: one model run per instance)."""
     if op["op"] == "set":
         return {"op": "set", "v": enc(op["v"]), "notify": op.get("notify", True)}
     if op["op"] == "client":
         return {"op": "client", "v": enc(op["v"])}
-    return {
-        "op": "override",
+    d = {
+        "op": op["op"],
         "u": enc_upd(op.get("props")),
         "vv": list((op.get("valid_values") or {}).values()),
     }
+    if op["op"] == "configure":
+        d["v"] = enc(op.get("v"))
+    return d
 
 
 def op_to_json(op):
     """Replay-file form of an op (values encoded exactly)."""
+    if op["op"] == "create":
+        return {"op": "create"}
     if op["op"] in ("set", "client"):
         d = {"op": op["op"], "v": enc(op["v"])}
         if op["op"] == "set":
             d["notify"] = op.get("notify", True)
-        return d
-    pj = None
-    if op.get("props") is not None:
-        pj = {}
-        for k, v in op["props"].items():
-            if k in ("minValue", "maxValue", "minStep"):
-                pj[k] = enc(v)
-            else:
-                pj[k] = v
-    return {"op": "override", "props": pj, "valid_values": op.get("valid_values")}
+    else:
+        pj = None
+        if op.get("props") is not None:
+            pj = {}
+            for k, v in op["props"].items():
+                if k in ("minValue", "maxValue", "minStep"):
+                    pj[k] = enc(v)
+                else:
+                    pj[k] = v
+        d = {"op": op["op"], "props": pj, "valid_values": op.get("valid_values")}
+        if op["op"] == "configure":
+            d["v"] = enc(op.get("v"))
+    if op.get("inst"):
+        d["inst"] = op["inst"]
+    return d
 
 
 def op_from_json(d):
+    if d["op"] == "create":
+        return {"op": "create"}
     if d["op"] in ("set", "client"):
         op = {"op": d["op"], "v": dec(d["v"])}
         if d["op"] == "set":
             op["notify"] = d.get("notify", True)
-        return op
-    props = None
-    if d.get("props") is not None:
-        props = {}
-        for k, v in d["props"].items():
-            props[k] = dec(v) if k in ("minValue", "maxValue", "minStep") else v
-    return {"op": "override", "props": props, "valid_values": d.get("valid_values")}
+    else:
+        props = None
+        if d.get("props") is not None:
+            props = {}
+            for k, v in d["props"].items():
+                props[k] = dec(v) if k in ("minValue", "maxValue", "minStep") else v
+        op = {"op": d["op"], "props": props, "valid_values": d.get("valid_values")}
+        if d["op"] == "configure":
+            op["v"] = dec(d["v"])
+    if d.get("inst"):
+        op["inst"] = d["inst"]
+    return op
 
 
 def props_to_json(props):
@@ -254,20 +272,57 @@ class Recorder:
         self.log.append(["callback", value])
 
 
-def make_char(case, rec: Recorder):
-    ch, ld = _pyhap()
-    if case.get("def") is not None:
-        loader = ld.Loader()
-        char = loader.get_char(case["def"])
-    else:
-        props = copy.deepcopy(case["props"])
-        uuid = ch.UUID(ALWAYS_NULL_UUID if case["always_null"] else PLAIN_UUID)
-        char = ch.Characteristic("generated", uuid, props)
-    char.allow_invalid_client_values = case["cfg"]["allowInvalid"]
-    char.broker = rec
-    if case["cfg"]["hasSetter"]:
-        char.setter_callback = rec.callback
-    return char
+_SERVICE_FOR: Dict[str, Optional[str]] = {}
+
+
+def _service_for(loader, name) -> Optional[str]:
+    """A shipped service that has the characteristic among its required ones (None: no such service)."""
+    if name not in _SERVICE_FOR:
+        _SERVICE_FOR[name] = next(
+            (sn for sn, sd in loader.serv_types.items() if name in sd.get("RequiredCharacteristics", [])), None
+        )
+    return _SERVICE_FOR[name]
+
+
+class World:
+    """The characteristics of one script.  Shipped definitions: every instance comes from the SAME
+    `Loader` (as in an application: two Thermostats on a bridge), each inside its own `Service`
+    obtained with `loader.get_service` (or `Service` + `loader.get_char` when no shipped service
+    requires the characteristic).  Generated property sets: `Characteristic(...)` in a plain Service."""
+
+    def __init__(self, case):
+        self.case = case
+        self.ch, ld = _pyhap()
+        self.svc_mod = importlib.import_module("pyhap.service")
+        self.loader = ld.Loader() if case.get("def") is not None else None
+        self.insts: List[Dict[str, Any]] = []
+
+    def create(self):
+        case, ch = self.case, self.ch
+        rec = Recorder()
+        if self.loader is not None:
+            name = case["def"]
+            sname = _service_for(self.loader, name)
+            if sname is not None:
+                svc = self.loader.get_service(sname)
+                char = svc.get_characteristic(name)
+            else:
+                svc = self.svc_mod.Service(ch.UUID(PLAIN_UUID), "holder")
+                svc.add_characteristic(self.loader.get_char(name))
+                char = svc.get_characteristic(name)
+        else:
+            props = copy.deepcopy(case["props"])
+            uuid = ch.UUID(ALWAYS_NULL_UUID if case["always_null"] else PLAIN_UUID)
+            svc = self.svc_mod.Service(ch.UUID(PLAIN_UUID), "holder")
+            svc.add_characteristic(ch.Characteristic("generated", uuid, props))
+            char = svc.get_characteristic("generated")
+        char.allow_invalid_client_values = case["cfg"]["allowInvalid"]
+        char.broker = rec
+        if case["cfg"]["hasSetter"]:
+            char.setter_callback = rec.callback
+        inst = {"char": char, "svc": svc, "rec": rec}
+        self.insts.append(inst)
+        return inst
 
 
 def _numeric(x):
@@ -277,9 +332,7 @@ def _numeric(x):
 def _step_entry(sr: Dict[str, Any], value, step):
     if not (_numeric(value) and _numeric(step)):
         return
-    if isinstance(value, float) and value != value:
-        pass  # NaN is truthy
-    if not value or not step:
+    if not value or not step:  # (NaN is truthy)
         return
     key = repr((enc(value), enc(step)))
     if key in sr:
@@ -295,46 +348,92 @@ def _step_entry(sr: Dict[str, Any], value, step):
     sr[key] = [enc(value), enc(step), res]
 
 
-def observe(char, rec: Recorder, exn):
+def _enc_props_safe(props):
+    try:
+        return enc_props(props)
+    except Exception as ex:  # noqa: BLE001
+        return "unencodable:" + type(ex).__name__
+
+
+def observe(inst, exn):
+    char, rec = inst["char"], inst["rec"]
     try:
         hap = char.to_HAP()
         rep = enc(hap["value"]) if "value" in hap else ABSENT
     except Exception as ex:  # noqa: BLE001
         rep = "raised:" + type(ex).__name__
     out = [[k, enc(v)] for k, v in rec.log]
-    return {"exn": exn, "value": enc(char.value), "hap": rep, "out": out}
+    return {"exn": exn, "value": enc(char.value), "props": _enc_props_safe(char.properties), "hap": rep, "out": out}
 
 
-def apply_op(char, op):
+def apply_op(inst, op):
+    char = inst["char"]
     if op["op"] == "set":
         char.set_value(op["v"], should_notify=op.get("notify", True))
     elif op["op"] == "client":
         char.client_update_value(op["v"], ("10.0.0.7", 51234))
-    else:
+    elif op["op"] == "override":
         char.override_properties(
             properties=copy.deepcopy(op.get("props")), valid_values=copy.deepcopy(op.get("valid_values"))
         )
+    else:  # configure: through the real Service.configure_char, as an application does
+        inst["svc"].configure_char(
+            char.display_name, properties=copy.deepcopy(op.get("props")),
+            valid_values=copy.deepcopy(op.get("valid_values")), value=op.get("v"),
+        )
+
+
+def _snapshot(inst):
+    o = observe(inst, None)
+    return (o["value"], o["hap"], o["props"])
+
+
+def _inst_info(inst, events):
+    char = inst["char"]
+    return {"stored": char.value, "reported": _reported(char), "props": char.properties, "events": events}
 
 
 def run_impl(case, judge=None):
-    """Run one script on the real Characteristic.  Returns (trace, sr-table, always_null).
-    `judge(info)` is called after construction and after every op with what the oracle needs."""
-    rec = Recorder()
+    """Run one script on real Characteristic objects.
+    Returns (per-instance traces, sr-table, always_null, sibling_changes).
+    `judge(info)` is called after construction and after every op with what the oracle needs:
+    the state of EVERY instance."""
     sr: Dict[str, Any] = {}
-    try:
-        char = make_char(case, rec)
-    except Exception as ex:  # noqa: BLE001
-        return {"init": {"err": type(ex).__name__}, "steps": []}, sr, False
     always_null = _def_always_null(case["def"]) if case.get("def") is not None else case["always_null"]
-    first = observe(char, rec, None)
-    trace = {"init": {"ok": first["value"], "hap": first["hap"]}, "steps": []}
-    if judge:
-        judge(
-            {"i": -1, "op": None, "raised": None, "before": None, "stored": char.value, "events": [],
-             "reported": _reported(char), "props": char.properties, "always_null": always_null}
-        )
+    world = World(case)
+    traces: List[Dict[str, Any]] = []
+    changes: List[Any] = []
+
+    def add_instance(i):
+        try:
+            inst = world.create()
+        except Exception as ex:  # noqa: BLE001
+            traces.append({"init": {"err": type(ex).__name__}, "steps": []})
+            world.insts.append(None)
+            return
+        first = observe(inst, None)
+        traces.append({"init": {"ok": first["value"], "props": first["props"], "hap": first["hap"]}, "steps": []})
+        if judge:
+            judge({"i": i, "op": None if i == -1 else {"op": "create"}, "raised": None, "target": len(world.insts) - 1,
+                   "before": None, "insts": [_inst_info(x, []) if x else None for x in world.insts],
+                   "always_null": always_null})
+
+    for _ in range(case.get("n_inst", 1)):
+        add_instance(-1)
+    snaps = [(_snapshot(x) if x else None) for x in world.insts]
     for i, op in enumerate(case["ops"]):
-        rec.log.clear()
+        if op["op"] == "create":
+            add_instance(i)
+            snaps.append(_snapshot(world.insts[-1]) if world.insts[-1] else None)
+            continue
+        j = op.get("inst", 0)
+        inst = world.insts[j]  # IndexError for a script that addresses a missing instance
+        if inst is None:
+            continue
+        for x in world.insts:
+            if x:
+                x["rec"].log.clear()
+        char = inst["char"]
         before = char.value
         cur_step = char.properties.get("minStep")
         if op["op"] in ("set", "client"):
@@ -342,20 +441,28 @@ def run_impl(case, judge=None):
         else:
             new_step = (op.get("props") or {}).get("minStep", cur_step)
             _step_entry(sr, before, new_step)
+            if op["op"] == "configure":
+                _step_entry(sr, op.get("v"), new_step)
         exn = None
         try:
-            apply_op(char, op)
-        except Exception as ex:  # noqa: BLE001
+            apply_op(inst, op)
+        except Exception as ex:  # noqa: BLE001  (an application would catch ValueError and carry on)
             exn = type(ex).__name__
-        events = list(rec.log)
-        obs = observe(char, rec, exn)
-        trace["steps"].append(obs)
+        events = [list(x["rec"].log) if x else [] for x in world.insts]
+        traces[j]["steps"].append(observe(inst, exn))
+        for k, x in enumerate(world.insts):
+            if x is None:
+                continue
+            now = _snapshot(x)
+            if k != j and (now != snaps[k] or events[k]):
+                changes.append({"op_index": i, "op": op_to_json(op), "sibling": k,
+                                "before": snaps[k], "after": now, "sibling_events": [[a, enc(b)] for a, b in events[k]]})
+            snaps[k] = now
         if judge:
-            judge(
-                {"i": i, "op": op, "raised": exn, "before": before, "stored": char.value, "events": events,
-                 "reported": _reported(char), "props": char.properties, "always_null": always_null}
-            )
-    return trace, sr, always_null
+            judge({"i": i, "op": op, "raised": exn, "target": j, "before": before,
+                   "insts": [_inst_info(x, events[k]) if x else None for k, x in enumerate(world.insts)],
+                   "always_null": always_null})
+    return traces, sr, always_null, changes
 
 
 _NOVALUE = object()
@@ -371,9 +478,12 @@ def _reported(char):
 
 # --------------------------------------------------------------------------- the oracle (property itself)
 
+_SHOWN = ("Format", "minValue", "maxValue", "minStep", "ValidValues", "maxLen")
+
 
 def judge_case(case) -> List[Dict[str, str]]:
-    """Evaluate C09 on the real behaviour of one script; returns the list of failures found."""
+    """Evaluate C09 on the real behaviour of one script; returns the list of failures found.
+    After every operation EVERY instance is judged against ITS OWN declared properties."""
     fails: List[Dict[str, str]] = []
     allow = case["cfg"]["allowInvalid"]
 
@@ -383,59 +493,81 @@ def judge_case(case) -> List[Dict[str, str]]:
     def judge(info):
         if fails:
             return  # judge a history up to its first failure; what follows starts from a bad state
-        props, an = info["props"], info["always_null"]
-        i, op, raised = info["i"], info["op"], info["raised"]
+        an = info["always_null"]
+        i, op, raised, target = info["i"], info["op"], info["raised"], info["target"]
         kind = op["op"] if op else "init"
+        tgt = info["insts"][target]
         # (2) a rejected write leaves the value unchanged and emits nothing
-        if raised and kind in ("set", "client"):
-            if enc(info["before"]) != enc(info["stored"]):
+        if raised and kind in ("set", "client") and tgt is not None:
+            if enc(info["before"]) != enc(tgt["stored"]):
                 bad("C09:rejected-write-changed-value",
                     f"{kind}({op['v']!r:.60}) raised {raised} but the stored value went from "
-                    f"{info['before']!r:.40} to {info['stored']!r:.40}", i)
-            if info["events"]:
+                    f"{info['before']!r:.40} to {tgt['stored']!r:.40}", i)
+            if tgt["events"]:
                 bad("C09:rejected-write-emitted",
-                    f"{kind}({op['v']!r:.60}) raised {raised} but emitted {info['events']!r:.80}", i)
+                    f"{kind}({op['v']!r:.60}) raised {raised} but emitted {tgt['events']!r:.80}", i)
         # (1) stored / reported / notified / callback values conform to the declared constraints
-        if not ref.consistent(props):
-            if i == -1 and case.get("def") is not None:
-                # a shipped definition whose declared set admits no conforming value at all
-                shown = {k: props[k] for k in ("Format", "minValue", "maxValue", "minStep", "ValidValues", "maxLen") if k in props}
-                bad("C09:shipped-definition-inconsistent",
-                    f"the declared constraints {shown!r:.200} admit no conforming value, so the stored value "
-                    f"{info['stored']!r:.40} cannot satisfy them", i)
-            return  # no conforming value exists for an inconsistent set (the generator avoids them)
-        after_raising_override = bool(raised) and kind == "override"
-        seen = [("notified" if k == "notify" else "callback-argument", v) for k, v in info["events"]]
-        seen.append(("stored", info["stored"]))
-        if info["reported"] is not _NOVALUE:
-            seen.append(("reported", info["reported"]))
-        for where, v in seen:
-            why = ref.nonconformity(props, an, allow, v)
-            if why and not fails:
-                shown = {k: props[k] for k in ("Format", "minValue", "maxValue", "minStep", "ValidValues", "maxLen") if k in props}
-                if after_raising_override:
-                    # the override raised after it had replaced the property set
-                    sig = "C09:override-raised-after-replacing-properties"
-                elif an and where in ("notified", "callback-argument") and why == "not-a-valid-value":
-                    sig = "C09:always-null-emits-nonconforming-value"
-                else:
-                    sig = f"C09:{where}-{why}" + (":always-null" if an else "")
-                bad(sig,
-                    f"after {kind}" + (f"({_show_op(op)})" if op else "") + (f" raising {raised}" if raised else "")
-                    + f" the {where} value {v!r:.60} violates the declared constraints {shown!r:.200}", i)
+        order = [target] + [k for k in range(len(info["insts"])) if k != target]
+        for k in order:
+            st = info["insts"][k]
+            if st is None or fails:
+                continue
+            props = st["props"]
+            sibling = k != target and kind not in ("init", "create")
+            if not ref.consistent(props):
+                if kind == "init" and case.get("def") is not None:
+                    # a shipped definition whose declared set admits no conforming value at all
+                    shown = {x: props[x] for x in _SHOWN if x in props}
+                    bad("C09:shipped-definition-inconsistent",
+                        f"the declared constraints {shown!r:.200} admit no conforming value, so the stored value "
+                        f"{st['stored']!r:.40} cannot satisfy them", i)
+                continue  # no conforming value exists for an inconsistent set (the generator avoids them)
+            seen = [("notified" if a == "notify" else "callback-argument", v) for a, v in st["events"]]
+            seen.append(("stored", st["stored"]))
+            if st["reported"] is not _NOVALUE:
+                seen.append(("reported", st["reported"]))
+            for where, v in seen:
+                why = ref.nonconformity(props, an, allow, v)
+                if why and not fails:
+                    shown = {x: props[x] for x in _SHOWN if x in props}
+                    if sibling and kind in ("override", "configure"):
+                        sig = "C09:sibling-changed-by-override"
+                    elif sibling:
+                        sig = f"C09:sibling-{where}-{why}"
+                    elif raised and kind == "override":
+                        # the override raised after it had replaced the property set
+                        sig = "C09:override-raised-after-replacing-properties"
+                    elif kind == "configure":
+                        sig = f"C09:{where}-{why}:after-configure"
+                    elif an and where in ("notified", "callback-argument") and why == "not-a-valid-value":
+                        sig = "C09:always-null-emits-nonconforming-value"
+                    else:
+                        sig = f"C09:{where}-{why}" + (":always-null" if an else "")
+                    who = f"instance {k}" + (f" (the operation was addressed to instance {target})" if sibling else "")
+                    bad(sig,
+                        f"after {kind}" + (f"({_show_op(op)})" if op and kind != "create" else "")
+                        + (f" raising {raised}" if raised else "")
+                        + f" the {where} value {v!r:.60} of {who} violates its declared constraints {shown!r:.200}", i)
 
-    run_impl(case, judge)
+    try:
+        run_impl(case, judge)
+    except IndexError:
+        return []  # (a shrunk script that addresses an instance it no longer creates)
     return fails
 
 
 def _show_op(op):
+    if op["op"] == "create":
+        return ""
     if op["op"] in ("set", "client"):
         return f"{op['v']!r:.60}"
-    return f"properties={op.get('props')!r:.80}, valid_values={op.get('valid_values')!r:.60}"
+    t = f"properties={op.get('props')!r:.80}, valid_values={op.get('valid_values')!r:.60}"
+    return t + (f", value={op.get('v')!r:.40}" if op["op"] == "configure" else "")
 
 
 def case_to_replay(case):
-    r = {"kind": "script", "def": case.get("def"), "cfg": case["cfg"], "ops": [op_to_json(o) for o in case["ops"]]}
+    r = {"kind": "script", "def": case.get("def"), "cfg": case["cfg"], "ops": [op_to_json(o) for o in case["ops"]],
+         "n_inst": case.get("n_inst", 1)}
     if case.get("def") is None:
         r["props"] = props_to_json(case["props"])
         r["always_null"] = case["always_null"]
@@ -443,7 +575,8 @@ def case_to_replay(case):
 
 
 def replay_to_case(r):
-    case = {"def": r.get("def"), "cfg": r["cfg"], "ops": [op_from_json(o) for o in r["ops"]]}
+    case = {"def": r.get("def"), "cfg": r["cfg"], "ops": [op_from_json(o) for o in r["ops"]],
+            "n_inst": r.get("n_inst", 1)}
     if case["def"] is None:
         case["props"] = props_from_json(r["props"])
         case["always_null"] = r["always_null"]
@@ -591,21 +724,124 @@ def gen_override(rng, cur, stored_hint=None):
     return op, merged_props(cur, op)
 
 
-def gen_ops(rng, props, n, p_override=0.2):
+FALSY = [0, 0.0, False, "", None]
+
+
+def gen_ops(rng, props, n, p_override=0.2, n_inst=1):
+    """Random ops; with n_inst > 1 each op is addressed to a random instance (the generator keeps
+    one property dict per instance: instances are independent on a healthy tree)."""
     ops = []
-    cur = dict(props)
+    curs = [dict(props) for _ in range(n_inst)]
+    p_conf = 0.12
     for _ in range(n):
+        if n_inst > 1 and rng.random() < 0.06:
+            ops.append({"op": "create"})
+            curs.append(dict(props))
+            continue
+        j = rng.randrange(len(curs))
+        cur = curs[j]
         r = rng.random()
         if r < p_override:
-            op, cur = gen_override(rng, cur)
-            ops.append(op)
+            op, curs[j] = gen_override(rng, cur)
+        elif r < p_override + p_conf:
+            # Service.configure_char(properties=..., valid_values=..., value=...)
+            if rng.random() < 0.8:
+                ov, new = gen_override(rng, cur)
+            else:
+                ov, new = {"props": None, "valid_values": None}, cur
+            v = rng.choice(FALSY) if rng.random() < 0.4 else rng.choice(value_pool(new))
+            op = {"op": "configure", "props": ov["props"], "valid_values": ov["valid_values"], "v": v}
+            curs[j] = new
         else:
             v = rng.choice(value_pool(cur))
-            if r < p_override + (1 - p_override) * 0.5:
-                ops.append({"op": "set", "v": v, "notify": rng.random() < 0.9})
+            if r < p_override + p_conf + (1 - p_override - p_conf) * 0.5:
+                op = {"op": "set", "v": v, "notify": rng.random() < 0.9}
             else:
-                ops.append({"op": "client", "v": v})
+                op = {"op": "client", "v": v}
+        if j:
+            op["inst"] = j
+        ops.append(op)
     return ops
+
+
+def _narrowings(props):
+    """(legal value for the shipped set, narrowing override that excludes it) pairs."""
+    fmt = props["Format"]
+    out = []
+    vv = ref.valid_values(props)
+    lo, hi = props.get("minValue"), props.get("maxValue")
+    if fmt in NUMERIC:
+        integer = fmt in INT_FORMATS
+        if vv:
+            keep = [x for x in vv if x != vv[-1]][:2]
+            if keep:
+                out.append((vv[-1], {"props": None, "valid_values": _vv_dict(keep)}))
+                out.append((vv[-1], {"props": {"ValidValues": _vv_dict(keep)}, "valid_values": None}))
+        else:
+            a = lo if lo is not None else 0
+            top = hi if hi is not None else a + 80
+            if top != a:
+                a2 = a if (not integer or isinstance(a, int)) else int(math.ceil(a))
+                out.append((top, {"props": {"minValue": a2, "maxValue": a2}, "valid_values": None}))
+            if hi is not None and lo is not None and hi - lo >= 4:
+                q = (hi - lo) // 4 if integer else (hi - lo) / 4
+                out.append((hi, {"props": {"minValue": lo + q, "maxValue": hi - q}, "valid_values": None}))
+                out.append((lo, {"props": {"minValue": lo + q, "maxValue": hi - q}, "valid_values": None}))
+    elif fmt == "string":
+        out.append(("z" * 40, {"props": {"maxLen": 5}, "valid_values": None}))
+    return [(v, ov) for v, ov in out if ref.consistent(merged_props(props, dict(ov, op="override")))]
+
+
+def sibling_scripts(name, props) -> List[Dict[str, Any]]:
+    """Two (then three) characteristics of one type from the same loader: a value legal for the
+    shipped definition on one, a narrowing override / configure on ANOTHER, a third created later."""
+    cases = []
+    cfg = {"allowInvalid": False, "hasSetter": True}
+    for legal, ov in _narrowings(props)[:3]:
+        for kind in ("override", "configure"):
+            narrow = dict(ov, op=kind)
+            if kind == "configure":
+                narrow["v"] = None
+            cases.append({"def": name, "cfg": cfg, "n_inst": 2, "ops": [
+                {"op": "set", "v": legal, "notify": True, "inst": 1},
+                narrow,  # addressed to instance 0
+                {"op": "create"},
+                {"op": "set", "v": legal, "notify": True, "inst": 2},
+                {"op": "client", "v": legal, "inst": 1},
+            ]})
+    if not cases:
+        cases.append({"def": name, "cfg": cfg, "n_inst": 2, "ops": [
+            {"op": "override", "props": {"unit": "x"}, "valid_values": None},
+            {"op": "create"},
+            {"op": "set", "v": 1, "notify": True, "inst": 2},
+        ]})
+    return cases
+
+
+def configure_scripts(name, props) -> List[Dict[str, Any]]:
+    """`Service.configure_char(properties / valid_values, value)` with the stored value made illegal
+    by the new constraints and a value that is falsy (`if value:` skips it), rejected by set_value
+    (the application catches the error), absent, or fine."""
+    cases = []
+    cfg = {"allowInvalid": False, "hasSetter": True}
+    fmt = props["Format"]
+    for legal, ov in _narrowings(props)[:2]:
+        new = merged_props(props, dict(ov, op="override"))
+        good = ref.valid_values(new)[0] if ref.valid_values(new) else new.get("minValue", new.get("maxValue", 1))
+        values = [0, 0.0, False, "", None, "abc", [1], good]
+        if fmt in NUMERIC:
+            values += [float("nan"), (max(ref.valid_values(new)) + 7) if ref.valid_values(new) else HUGE]
+        for v in values:
+            cases.append({"def": name, "cfg": cfg, "ops": [
+                {"op": "set", "v": legal, "notify": True},
+                dict(ov, op="configure", v=v),
+                {"op": "client", "v": legal},
+            ]})
+    # no override part at all: only the value
+    for v in (0, "", 1, "abc", True):
+        cases.append({"def": name, "cfg": cfg, "ops": [{"op": "configure", "props": None, "valid_values": None, "v": v},
+                                                   {"op": "configure", "props": {}, "valid_values": {}, "v": v}]})
+    return cases
 
 
 def boundary_scripts(name, props, rng) -> List[Dict[str, Any]]:
@@ -746,22 +982,32 @@ def gen_cases(ctx: Ctx, thorough_size=False) -> List[Dict[str, Any]]:
     for name, d in defs.items():
         props = {k: v for k, v in d.items() if k != "UUID"}
         cases += boundary_scripts(name, props, rng)
+        cases += sibling_scripts(name, props)
+        cases += configure_scripts(name, props)
         for _ in range(5 if quick else 250):
             cfg = {"allowInvalid": rng.random() < 0.15, "hasSetter": rng.random() < 0.8}
-            cases.append({"def": name, "cfg": cfg, "ops": gen_ops(rng, props, rng.randint(1, 12))})
+            k = rng.choice([1, 1, 1, 2, 3])
+            cases.append({"def": name, "cfg": cfg, "n_inst": k,
+                          "ops": gen_ops(rng, props, rng.randint(1, 12), n_inst=k)})
     cases += shape_scripts()
     for _ in range(500 if quick else 50000):
         p = random_props(rng)
         cfg = {"allowInvalid": rng.random() < 0.15, "hasSetter": rng.random() < 0.8}
-        cases.append({"def": None, "props": p, "always_null": rng.random() < 0.1, "cfg": cfg,
-                      "ops": gen_ops(rng, p, rng.randint(1, 12), p_override=0.3)})
+        k = rng.choice([1, 1, 1, 2])
+        cases.append({"def": None, "props": p, "always_null": rng.random() < 0.1, "cfg": cfg, "n_inst": k,
+                      "ops": gen_ops(rng, p, rng.randint(1, 12), p_override=0.3, n_inst=k)})
     return cases
 
 
 # --------------------------------------------------------------------------- model side
 
 
-def model_line(case, sr, always_null):
+def inst_ops(case, j):
+    """the ops addressed to instance j (what the model, where instances share nothing, runs for it)"""
+    return [o for o in case["ops"] if o["op"] != "create" and o.get("inst", 0) == j]
+
+
+def model_line(case, sr, always_null, j=0):
     if case.get("def") is not None:
         d = _defs()[case["def"]]
         props = {k: v for k, v in d.items() if k != "UUID"}
@@ -776,12 +1022,13 @@ def model_line(case, sr, always_null):
     note(0.0)
     for k in ("minValue", "maxValue", "minStep"):
         note(props.get(k))
-    for op in case["ops"]:
-        if op["op"] == "override":
+    ops = inst_ops(case, j)
+    for op in ops:
+        if op["op"] in ("override", "configure"):
             for k in ("minValue", "maxValue", "minStep"):
                 note((op.get("props") or {}).get(k))
-        else:
-            note(op["v"])
+        if op["op"] != "override":
+            note(op.get("v"))
     srl = []
     for v, s, res in sr.values():
         if "ok" in res:
@@ -792,7 +1039,7 @@ def model_line(case, sr, always_null):
     return {
         "layer": "char", "op": "script", "props": enc_props(props),
         "cfg": {"alwaysNull": always_null, "allowInvalid": case["cfg"]["allowInvalid"], "hasSetter": case["cfg"]["hasSetter"]},
-        "ops": [enc_op(o) for o in case["ops"]], "sr": srl, "fr": list(floats.values()),
+        "ops": [enc_op(o) for o in ops], "sr": srl, "fr": list(floats.values()),
     }
 
 
@@ -805,75 +1052,86 @@ def run(ctx: Ctx):
     st = ctx.stats
     st.rule = (
         "scripts = every shipped definition x (the whole boundary pool through set_value and client_update_value in "
-        "chunks of 12, huge-value-then-restricting-override, override-invalidating-the-current-value) + random "
-        "scripts (<= 12 ops of set/client/override) per shipped definition + random consistent generated property "
-        "sets; a script is non-trivial if at least one op raised, clamped/rounded/converted its argument, was an "
-        "override, or emitted an event; distinct by (definition or property set, configuration, op list)."
+        "chunks of 12; huge-value-then-restricting-override; override-invalidating-the-current-value; two/three "
+        "instances from ONE Loader with a narrowing override/configure on a sibling and a late-created instance; "
+        "Service.configure_char with falsy / rejected / absent / fine values after a narrowing) + random scripts "
+        "(<= 12 ops of set/client/override/configure/create over 1-3 instances) per shipped definition + random "
+        "consistent generated property sets; every instance is judged after every op and compared with its own "
+        "independent model run; a script is non-trivial if at least one op raised, clamped/rounded/converted its "
+        "argument, was an override/configure, or emitted an event; distinct by (definition or property set, "
+        "configuration, instance count, op list)."
     )
     cases = gen_cases(ctx)
-    lines, impls = [], []
+    lines, impls, owner = [], [], []
     cons_lines, cons_want = [], []
     step_exn_seen = set()
     judged: Dict[str, Any] = {}
     judge_cap = ctx.n(6000, 40000)
 
-    for case in cases:
+    for ci, case in enumerate(cases):
         fails = oracle(ctx, case)
         allow = case["cfg"]["allowInvalid"]
 
-        def collect(info, allow=allow):
-            # (property set, value) pairs seen on the real object: the model's `consistent` / `conf`
+        def note_pair(props, an, v, allow=allow):
+            # (property set, value) pairs seen on the real objects: the model's `consistent` / `conf`
             # predicates (what the theorems talk about) are compared with the oracle's on them
             if len(judged) >= judge_cap:
                 return
-            vals = [info["stored"]] + [v for _, v in info["events"]]
             try:
-                pj = enc_props(info["props"])
+                pj = enc_props(props)
             except Exception:  # noqa: BLE001
                 return
-            for v in vals:
-                key = repr((pj, info["always_null"], allow, enc(v)))
-                if key not in judged:
-                    judged[key] = (
-                        {"layer": "char", "op": "judge", "props": pj, "v": enc(v),
-                         "cfg": {"alwaysNull": info["always_null"], "allowInvalid": allow, "hasSetter": True}},
-                        {"consistent": ref.consistent(info["props"]),
-                         "conf": ref.nonconformity(info["props"], info["always_null"], allow, v) is None},
-                    )
+            key = repr((pj, an, allow, enc(v)))
+            if key not in judged:
+                judged[key] = (
+                    {"layer": "char", "op": "judge", "props": pj, "v": enc(v),
+                     "cfg": {"alwaysNull": an, "allowInvalid": allow, "hasSetter": True}},
+                    {"consistent": ref.consistent(props), "conf": ref.nonconformity(props, an, allow, v) is None},
+                )
 
-        trace, sr, an = run_impl(case, collect)
+        def collect(info):
+            for x in info["insts"]:
+                if x is not None:
+                    for v in [x["stored"]] + [v for _, v in x["events"]]:
+                        note_pair(x["props"], info["always_null"], v)
+
+        traces, sr, an, changes = run_impl(case, collect)
         # raw (unvalidated) pool values against the declared set: exercises the refusing side of `conf`
         p0 = case.get("props") or {k: v for k, v in _defs()[case["def"]].items() if k != "UUID"}
         for v in ctx.rng.sample(COMMON_POOL, 3) + ctx.rng.sample(value_pool(p0), 3):
-            collect({"stored": v, "events": [], "props": p0, "always_null": an})
-        impls.append(trace)
-        lines.append(model_line(case, sr, an))
+            note_pair(p0, an, v)
+        for j, tr in enumerate(traces):
+            impls.append(tr)
+            lines.append(model_line(case, sr, an, j))
+            owner.append((ci, j))
+        for chg in changes[:1]:
+            # instances share nothing in the model: a sibling that changes without an op addressed to it
+            ctx.disagree("sibling-changed", {"def": case.get("def"), "replay": case_to_replay(case), **chg},
+                         "unchanged (instances are independent)", _short(chg["after"]))
         for _, _, res in sr.values():
             if "err" in res:
                 step_exn_seen.add(res["err"])
         nontriv = False
-        for op, obs in zip(case["ops"], trace["steps"]):
-            st.hit("op", op["op"])
-            if obs["exn"]:
-                st.hit("outcome", f"{op['op']}-raised-{obs['exn']}")
-                nontriv = True
-            elif op["op"] == "override":
-                st.hit("outcome", "override-applied")
-                nontriv = True
-            else:
-                conv = obs["value"] != enc(op["v"])
-                st.hit("outcome", f"{op['op']}-" + ("converted" if conv else "stored-as-given"))
-                nontriv = nontriv or conv or bool(obs["out"])
-            if obs["out"]:
-                st.hit("outcome", "events-emitted", len(obs["out"]))
+        for j, tr in enumerate(traces):
+            for op, obs in zip(inst_ops(case, j), tr["steps"]):
+                st.hit("op", op["op"])
+                if obs["exn"]:
+                    st.hit("outcome", f"{op['op']}-raised-{obs['exn']}")
+                    nontriv = True
+                elif op["op"] in ("override", "configure"):
+                    st.hit("outcome", f"{op['op']}-applied")
+                    nontriv = True
+                else:
+                    conv = obs["value"] != enc(op["v"])
+                    st.hit("outcome", f"{op['op']}-" + ("converted" if conv else "stored-as-given"))
+                    nontriv = nontriv or conv or bool(obs["out"])
+                if obs["out"]:
+                    st.hit("outcome", "events-emitted", len(obs["out"]))
+        st.hit("outcome", f"instances-{len(traces)}")
         if fails:
             st.hit("outcome", "oracle-failure")
-        st.case([case.get("def"), case.get("props"), case["cfg"], [op_to_json(o) for o in case["ops"]]], nontriv)
-        # consistency notion: harness vs model, on the initial property set
-        if case.get("def") is None or not case["ops"]:
-            p = case.get("props") or {k: v for k, v in _defs()[case["def"]].items() if k != "UUID"}
-            cons_lines.append({"layer": "char", "op": "consistent", "props": enc_props(p)})
-            cons_want.append({"ok": ref.consistent(p)})
+        st.case([case.get("def"), case.get("props"), case["cfg"], case.get("n_inst", 1),
+                 [op_to_json(o) for o in case["ops"]]], nontriv)
     # one consistency line per shipped definition
     for name, d in _defs().items():
         p = {k: v for k, v in d.items() if k != "UUID"}
@@ -899,14 +1157,15 @@ def run(ctx: Ctx):
         cons_lines.append(ln)
         cons_want.append(want)
     model = run_model_parallel("C09", lines + cons_lines, workers=12)
-    for case, ln, m, i in zip(cases, lines, model[: len(lines)], impls):
+    for (ci, j), ln, m, i in zip(owner, lines, model[: len(lines)], impls):
         st.traces_validated += 1
         if m != i:
-            k = next((j for j, (a, b) in enumerate(zip(m.get("steps", []), i["steps"])) if a != b), None)
+            case = cases[ci]
+            k = next((x for x, (a, b) in enumerate(zip(m.get("steps", []), i["steps"])) if a != b), None)
             detail_m = m.get("steps", [None])[k] if k is not None and k < len(m.get("steps", [])) else m.get("init", m)
             detail_i = i["steps"][k] if k is not None else i["init"]
-            ctx.disagree("char-script", {"def": case.get("def"), "props": ln["props"], "cfg": ln["cfg"], "first_diff_at": k,
-                                         "op": ln["ops"][k] if k is not None else None,
+            ctx.disagree("char-script", {"def": case.get("def"), "props": ln["props"], "cfg": ln["cfg"], "instance": j,
+                                         "first_diff_at": k, "op": ln["ops"][k] if k is not None else None,
                                          "replay": case_to_replay(case)}, _short(detail_m), _short(detail_i))
     for ln, m, w in zip(cons_lines, model[len(lines) :], cons_want):
         st.traces_validated += 1
@@ -915,13 +1174,14 @@ def run(ctx: Ctx):
         if m != w:
             ctx.disagree("predicates", {"props": ln["props"], "cfg": ln.get("cfg"), "v": ln.get("v")}, m, w)
 
-    for idx in (0, len(cases) // 2, len(cases) - 1):
-        c = cases[idx]
-        st.sample({"definition": c.get("def") or c.get("props"), "cfg": c["cfg"],
-                   "ops": [_short(op_to_json(o), 120) for o in c["ops"][:4]],
-                   "impl": _short(impls[idx]["steps"][:4], 500), "model_agrees": model[idx] == impls[idx]})
+    for idx in (0, len(lines) // 2, len(lines) - 1):
+        ci, j = owner[idx]
+        c = cases[ci]
+        st.sample({"definition": c.get("def") or c.get("props"), "cfg": c["cfg"], "instances": c.get("n_inst", 1),
+                   "instance": j, "ops": [_short(op_to_json(o), 120) for o in c["ops"][:5]],
+                   "impl": _short(impls[idx]["steps"][:3], 600), "model_agrees": model[idx] == impls[idx]})
     st.notes.append(f"{len(judged)} (property set, value) pairs: model consistent/conf vs oracle")
-    st.notes.append(f"{len(cases)} scripts, {sum(len(c['ops']) for c in cases)} ops; "
+    st.notes.append(f"{len(cases)} scripts, {len(lines)} instance runs, {sum(len(c['ops']) for c in cases)} ops; "
                     f"step-rounding exception classes seen: {sorted(step_exn_seen)}")
 
 
@@ -941,11 +1201,15 @@ def replay(ctx: Ctx, r):
                 return replay(ctx, rr)
         return 1
     case = replay_to_case(r)
-    trace, _, _ = run_impl(case)
-    print("definition:", case.get("def") or case.get("props"), "cfg:", case["cfg"])
-    print("initial value:", trace["init"])
-    for op, obs in zip(case["ops"], trace["steps"]):
-        print(" ", op["op"], _show_op(op), "->", _short(obs, 300))
+    traces, _, _, changes = run_impl(case)
+    print("definition:", case.get("def") or case.get("props"), "cfg:", case["cfg"], "instances:", case.get("n_inst", 1))
+    for j, tr in enumerate(traces):
+        print(f"instance {j}: initial", _short(tr["init"], 300))
+        for op, obs in zip(inst_ops(case, j), tr["steps"]):
+            print("   ", op["op"], _show_op(op), "->", _short(obs, 400))
+    for chg in changes:
+        print("  sibling", chg["sibling"], "changed by op", chg["op_index"], ":", _short(chg["before"], 200), "->",
+              _short(chg["after"], 200))
     fails = judge_case(case)
     for f in fails:
         print("FAILS:", f["signature"], f["description"])
